@@ -31,6 +31,29 @@ Proof.
 Qed.
 End SaveGood.
 
+(* the proved part of "replace = false leaves the source intact": destination different from the source *)
+Lemma rechunker_source_intact {bytes : Type} (enc : Z -> list row -> bytes) (dec : Z -> bytes -> option (list row)) :
+  (forall k rs, dec k (enc k rs) = Some rs) ->
+  forall (fs : fsys bytes) src dst tmp comp tgt rechunk s cs,
+  src <> dst -> src <> tmp -> dst <> tmp -> lookup src fs = Some s -> good dec s cs ->
+  (forall t, tgt = Some t -> 0 < t) ->
+  Forall (fun fs' => lookup src fs' = Some s) (fst (rechunker_run enc dec fs src dst tmp false comp tgt rechunk)).
+Proof.
+  intros codec fs src dst tmp comp tgt rechunk s cs H1 H2 H3 Hl G Ht.
+  destruct (rechunker_preserves enc dec codec fs src dst tmp false comp tgt rechunk s cs H1 H2 H3 Hl G Ht)
+    as (tr & s' & cs' & E & _ & _ & _ & Hf & _).
+  rewrite E. cbn [fst]. apply Hf. reflexivity.
+Qed.
+
+(* the proved part of "ordinary key only if all chunks took part": groupings into consecutive jobs *)
+Lemma merge_tag_complete_groupings ns :
+  Forall (fun n => (0 < n)%nat) ns -> ns <> [] ->
+  merge_tag (list_sum ns) (groups_of 0 ns) = Ok None /\
+  forall i, (i < list_sum ns)%nat -> In i (concat (groups_of 0 ns)).
+Proof.
+  intros Hp Hne. split; [apply merge_tag_all; auto|]. intros i Hi. rewrite concat_groups. apply in_seq. lia.
+Qed.
+
 Lemma tcodec : forall k rs, tdec k (tenc k rs) = Some rs.
 Proof. intros k rs. unfold tdec, tenc. cbn. rewrite Z.eqb_refl. reflexivity. Qed.
 
@@ -102,6 +125,47 @@ Example ex_perchunk :
   = Some (Some [1; 3]) /\
   option_map (fun s => option_map (flat_map (fun c => map rid (crows c))) (opt_of_res (c16_load s))) (opt_of_res direct)
   = Some (Some [1; 3]).
+Proof. vm_compute. repeat split; reflexivity. Qed.
+
+(* ------------------------------------------------------------------ what the faithful model refutes *)
+(* (1) strax.rechunker with a dest_directory that resolves to the source directory itself (its parent or
+   the directory), replace = false: FileSaver.__init__ removes the "destination" before the lazy loader
+   has read anything; the call fails ("has no chunks", read from the fresh temp directory's metadata) and
+   the source path is left holding a directory marked with the exception. *)
+Lemma rechunker_same_dir_witness :
+  exists (fs : fsys tbytes) src tmp s cs,
+    src <> tmp /\ lookup src fs = Some s /\ good tdec s cs /\
+    let '(tr, r) := rechunker_run tenc tdec fs src src tmp false None None true in
+    r = Err E_NO_CHUNKS /\ visible (last tr fs) src = false /\
+    ~ Forall (fun fs' => lookup src fs' = Some s) tr.
+Proof.
+  exists [(P_SRC, ex_store)], P_SRC, P_TMP, ex_store, ex_layout.
+  split; [discriminate|]. split; [reflexivity|]. split; [exact ex_store_good|].
+  vm_compute. split; [reflexivity|]. split; [reflexivity|]. intros H. inversion H as [|? ? H1 _]. discriminate.
+Qed.
+
+(* (2) merge_per_chunk_storage decides "these are all the chunks" by min = 0 and max = last: groups with a
+   hole pass, the merged data goes under the ordinary key and lacks the rows of the missing chunk *)
+Definition ex_rows3 : list chunk :=
+  [mkchunk 0 10 [mkrow 1 2 0 0] 1 1 (Some 7) 4; mkchunk 10 20 [mkrow 11 12 1 0] 1 1 (Some 7) 4;
+   mkchunk 20 30 [mkrow 21 22 2 0] 1 1 (Some 7) 4].
+
+Lemma merge_hole_witness :
+  exists ndep groups i, merge_tag ndep groups = Ok None /\ (i < ndep)%nat /\ ~ In i (concat groups).
+Proof.
+  exists 3%nat, [[0%nat]; [2%nat]], 1%nat. split; [reflexivity|]. split; [lia|].
+  cbn. intros [H|[H|[]]]; discriminate.
+Qed.
+
+Example ex_merge_hole_rows :
+  let dep := c16_store_of 1 1 0 4 ex_rows3 in
+  let md_t := c16_template 2 2 0 4 in
+  let '(jobs, tag, merged, direct) := c16_perchunk 0 0 dep [[0%nat]; [2%nat]] md_t true true 4 in
+  tag = Ok None /\
+  option_map (fun s => option_map (flat_map (fun c => map rid (crows c))) (opt_of_res (c16_load s))) (opt_of_res merged)
+  = Some (Some [0; 2]) /\
+  option_map (fun s => option_map (flat_map (fun c => map rid (crows c))) (opt_of_res (c16_load s))) (opt_of_res direct)
+  = Some (Some [0; 1; 2]).
 Proof. vm_compute. repeat split; reflexivity. Qed.
 
 (* the tag changes the serialised lineage *)
